@@ -206,5 +206,31 @@ def _mod97_checksum(I, fn, args, kwargs):
         return acc
     r = ctx.fresh_int('ck97')
     ctx.add(r == acc)
+    # C06 lemmas as callee contract (subst_detected / transp_detected over hR[digits], hR[letters], hL, hT[digits]):
+    # a string that differs from an earlier argument by one same-kind substitution, or by swapping two adjacent
+    # different digits, has a different checksum.  Stated as implications, so they cost nothing when not needed.
+    from .isets import ISet, DIGITS
+    LET = ISet([(65, 90)])
+    for key0, r0 in list(memo.items()):
+        if key0[0] != 'mod97' or len(key0) != len(key):
+            continue
+        old = memo.get(('chars',) + key0[1:])
+        if old is None:
+            continue
+        diff = [i for i, (a, b) in enumerate(zip(old, number.chars)) if not (a is b or (isinstance(a, int) and isinstance(b, int) and a == b)
+                                                                               or (not isinstance(a, int) and not isinstance(b, int) and a.get_id() == b.get_id()))]
+        if len(diff) == 1:
+            a, b = old[diff[0]], number.chars[diff[0]]
+            da, db = I._dom(a), I._dom(b)
+            if (da.subset(DIGITS) and db.subset(DIGITS)) or (da.subset(LET) and db.subset(LET)):
+                ctx.add(z3.Implies(a != b, r != r0))
+        elif len(diff) == 2 and diff[1] == diff[0] + 1:
+            i, j = diff
+            a0, a1, b0, b1 = old[i], old[j], number.chars[i], number.chars[j]
+            same = lambda x, y: (x is y) or (isinstance(x, int) and isinstance(y, int) and x == y) or \
+                (not isinstance(x, int) and not isinstance(y, int) and x.get_id() == y.get_id())
+            if same(a0, b1) and same(a1, b0) and all(I._dom(x).subset(DIGITS) for x in (a0, a1)):
+                ctx.add(z3.Implies(a0 != a1, r != r0))
     memo[key] = r
+    memo[('chars',) + key[1:]] = list(number.chars)
     return r
